@@ -225,6 +225,21 @@ var c16BlockTxs = map[string][]string{
 		}
 		return out
 	}(),
+	// the blocks of the Other operation: transactions no fixture under test has
+	"b1200": func() []string {
+		out := []string{"coinbase"}
+		for k := 1; k < 1200; k++ {
+			out = append(out, fmt.Sprintf("var#%d", 5000+k))
+		}
+		return out
+	}(),
+	"b300o": func() []string {
+		out := []string{"coinbase"}
+		for k := 1; k < 300; k++ {
+			out = append(out, fmt.Sprintf("var#%d", 7000+k))
+		}
+		return out
+	}(),
 	"b300": func() []string {
 		out := []string{"coinbase"}
 		for k := 1; k < 300; k++ {
@@ -384,7 +399,7 @@ func c16Refs() {
 	c16Once.Do(func() {
 		c16BlockRefs = map[string]*c16Ref{}
 		c16TxRefs = map[string]*c16Ref{}
-		for _, n := range append(append([]string{}, c16BlockNames...), "b252", "b253", "b3wide", "b300", "b1100", "b65540") {
+		for _, n := range append(append([]string{}, c16BlockNames...), "b252", "b253", "b3wide", "b300", "b1100", "b65540", "b1200", "b300o") {
 			c16BlockRefs[n] = c16BlockRefOf(c16BuildBlock(n))
 		}
 		for _, n := range c16TxNames {
@@ -484,6 +499,7 @@ const (
 	c16OpBytes
 	c16OpTxLoc
 	c16OpSetHeight
+	c16OpOther // not an accessor of the block under test: ANOTHER, large block is wrapped and serialised now
 	// transaction wrapper
 	c16OpTHash
 	c16OpTMsgTx
@@ -497,7 +513,7 @@ type c16Op struct {
 }
 
 var c16OpNames = map[int]string{c16OpTx: "Tx", c16OpTxHash: "TxHash", c16OpTransactions: "Transactions",
-	c16OpHash: "Hash", c16OpBytes: "Bytes", c16OpTxLoc: "TxLoc", c16OpSetHeight: "SetHeight",
+	c16OpHash: "Hash", c16OpBytes: "Bytes", c16OpTxLoc: "TxLoc", c16OpSetHeight: "SetHeight", c16OpOther: "Other",
 	c16OpTHash: "Hash", c16OpTMsgTx: "MsgTx", c16OpTIndex: "Index", c16OpTSetIndex: "SetIndex"}
 
 func (o c16Op) hasArg() bool {
@@ -528,7 +544,7 @@ func c16ParseOp(s string, tx bool) c16Op {
 	if tx {
 		kinds = []int{c16OpTHash, c16OpTMsgTx, c16OpTIndex, c16OpTSetIndex}
 	} else {
-		kinds = []int{c16OpTx, c16OpTxHash, c16OpTransactions, c16OpHash, c16OpBytes, c16OpTxLoc, c16OpSetHeight}
+		kinds = []int{c16OpTx, c16OpTxHash, c16OpTransactions, c16OpHash, c16OpBytes, c16OpTxLoc, c16OpSetHeight, c16OpOther}
 	}
 	for _, k := range kinds {
 		o := c16Op{kind: k, arg: arg}
@@ -545,6 +561,15 @@ func c16OpStrings(ops []c16Op) []string {
 		out[i] = o.String()
 	}
 	return out
+}
+
+func c16FirstDiff(a, b []byte) int {
+	for i := 0; i < len(a) && i < len(b); i++ {
+		if a[i] != b[i] {
+			return i
+		}
+	}
+	return min(len(a), len(b))
 }
 
 // c16Indices: -1, 0..n-1, n, MaxInt
@@ -1137,6 +1162,29 @@ func (r *c16BlockRun) step(k int, op c16Op, sweep bool) bool {
 			r.checkWrapped("Transactions", i, t)
 		}
 
+	case c16OpOther:
+		// two other blocks (1200 and 300 transactions: above and below any plausible size threshold,
+		// different from every fixture under test) go through every route that serialises or parses;
+		// what the block under test handed out earlier must still be what it was
+		mc.Guard(func() {
+			for _, name := range []string{"b1200", "b300o"} {
+				ob := bchutil.NewBlock(c16BuildBlock(name))
+				ob.Bytes()
+				ob.TxLoc()
+				ob.Hash()
+				if ob2, _ := bchutil.NewBlockFromBytes(append([]byte{}, c16BlockRefs[name].ser...)); ob2 != nil {
+					ob2.TxLoc()
+					ob2.Transactions()
+				}
+				if ob3, _ := bchutil.NewBlockFromReader(bytes.NewReader(c16BlockRefs[name].ser)); ob3 != nil {
+					ob3.Bytes()
+				}
+			}
+		})
+		w.Outcome("another block serialised in between")
+		if r.bytesSeen != nil && !bytes.Equal(r.bytesSeen, r.cur.ser) {
+			r.viol("block/bytes-handed-out-earlier-changed-when-another-block-was-serialised", fmt.Sprintf("%d bytes; first difference at offset %d", len(r.bytesSeen), c16FirstDiff(r.bytesSeen, r.cur.ser)))
+		}
 	case c16OpTxLoc:
 		var locs []wire.TxLoc
 		var err error
@@ -1787,7 +1835,24 @@ func runC16(c *mc.Ctx) {
 				}
 			}
 		}
-		c.Space("block: wrapper under test x a second block constructed in between", int64(len(pairs)))
+		// ... and other blocks serialised BETWEEN the accessor calls of the block under test (what it
+		// handed out or cached before must not be storage that the next serialisation reuses)
+		for _, fx := range []string{"b3", "b300", "b1100", "b65540"} {
+			for _, ct := range c16BlockCtors {
+				for _, ops := range [][]string{
+					{"Bytes", "Other", "Bytes", "TxLoc"},
+					{"TxLoc", "Other", "TxLoc", "Bytes", "Hash"},
+					{"Other", "Bytes", "Other", "Other", "Bytes", "Tx(0)", "TxLoc"},
+					{"Transactions", "Bytes", "Other", "TxHash(1)", "Bytes"},
+				} {
+					if fx == "b65540" && len(ops) > 4 {
+						continue
+					}
+					pairs = append(pairs, c16BlockCase{Fixture: fx, Ctor: ct, Ops: ops})
+				}
+			}
+		}
+		c.Space("block: wrapper under test x a second block constructed in between, or other blocks serialised between its accessor calls", int64(len(pairs)))
 		c16ParFor(c, int64(len(pairs)), func(w *mc.W, i int64) { c16EvalBlock(w, pairs[i]) })
 		c.Space("block: 65540-transaction fixture x constructor x fixed call sequences", int64(len(huge)))
 		c16ParFor(c, int64(len(huge)), func(w *mc.W, i int64) {
